@@ -82,6 +82,19 @@ func c15Names(seed uint64, n, maxName int, minName ...int) []string {
 		for i := range b {
 			b[i] = "abcdefghijklmnopqrstuvwxyzABCDEFGHIJKLMNOPQRSTUVWXYZ0123456789-_. "[r.Intn(66)]
 		}
+		if r.Pct(12) {
+			// a file name is any bytes but '/' and NUL: Latin-1 letters, a stray byte-order mark, runs of bytes that
+			// are not UTF-8 at all
+			for k := r.Range(1, 3); k > 0; k-- {
+				at := r.Intn(l)
+				for _, ch := range [][]byte{{0xE9}, {0xFF, 0xFE}, {0xC3}, {0x80, 0x81, 0x82}, {0xEF, 0xBB, 0xBF}}[r.Intn(5)] {
+					if at < l {
+						b[at] = ch
+						at++
+					}
+				}
+			}
+		}
 		s := strings.TrimSpace(string(b))
 		if s == "" || s == "." || s == ".." || seen[s] {
 			s = fmt.Sprintf("%s%d", s, len(out))
@@ -124,12 +137,20 @@ func c15Exec(x *Ctx) {
 	names := c15Names(c.Seed, int(c.cfg("n")), int(c.cfg("maxname")), int(c.cfg("minname")))
 	for i, n := range names {
 		p := filepath.Join(dir, n)
-		switch i % 5 {
-		case 3:
+		switch i % 10 {
+		case 3, 8:
 			os.Mkdir(p, 0o750)
+		case 1:
+			os.Symlink("nope", p) // dangling (targets are short: in 9P2000.u they are part of the entry)
+		case 6:
+			os.Symlink([]string{"lp1", "..", "lp2", "."}[i/10%4], p) // into a loop, to the parent, to the directory itself
 		default:
 			os.WriteFile(p, fileContent(n, i%7*13), 0o640)
 		}
+	}
+	if len(names) >= 3 {
+		os.Symlink("lp2", filepath.Join(dir, "lp1")) // two links that point at each other
+		os.Symlink("lp1", filepath.Join(dir, "lp2"))
 	}
 	if c.cfg("oversized") != 0 {
 		os.WriteFile(filepath.Join(dir, strings.Repeat("L", 252)), nil, 0o640)
